@@ -124,7 +124,10 @@ def ext(typename: str, seed: int, n: int = 3):
                     cps.append(rnd.randrange(0x10000, 0x10FFFF))
                 else:
                     cps.append(rnd.randrange(0xDC80, 0xDCFF))
-            out.append(repr("".join(map(chr, cps))))
+            # keep to strings that are the surrogateescape image of some byte string: adjacent lone surrogates that spell a
+            # valid UTF-8 sequence (\udcde\udca2 = bytes DE A2 = U+07A2) are not "undecodable bytes" and cannot round-trip by design
+            txt = "".join(map(chr, cps)).encode("utf-8", "surrogateescape").decode("utf-8", "surrogateescape")
+            out.append(repr(txt))
     elif typename == "bytes":
         for _ in range(n):
             out.append(repr(bytes(rnd.randrange(256) for _ in range(rnd.choice([1, 3, 40, 300])))))
